@@ -87,6 +87,14 @@ def mutate(m):
         m.data = [127, 127] + list(m.data)
 
 
+def snap_msg(m):
+    try:
+        return (m.type, tuple(sorted((k, tuple(v) if isinstance(v, (list, tuple)) else v)
+                                     for k, v in vars(m).items() if k != 'type')))
+    except Exception:
+        return ('?', repr(m))
+
+
 # ---------------------------------------------------------------- device doubles
 
 class Wire:
@@ -203,6 +211,18 @@ class PortsConc(BaseEngine):
                 'sleep_time': pick(rng, (1e-4, 1e-3, 1e-2, 0.5)), 'start_time': pick(rng, (0.0, 100.0, 1.7e9)),
                 'sched': sched, 'sched_seed': derive(prop, seed, idx, 'sched'), 'decisions': [], 'total': total}
 
+    def gen_twin(self, prop, seed, idx, wires, rng):
+        """Two threads, each an independent user of the parser (own Parser object fed in chunks, or repeated
+        mido.parse_all calls on its own data). Nothing is shared on purpose."""
+        base = self.gen(prop, seed, idx, 'quick')
+        base['kind'] = 'twin_parsers'
+        base['wires'] = [list(w) for w in wires]
+        base['twin_api'] = [pick(rng, ('parser', 'parser', 'parse_all', 'feed_byte')) for _ in wires]
+        base['senders'] = [[] for _ in wires]
+        base['receivers'] = []
+        base['chunks'] = [rng.randint(1, 6) for _ in range(rng.randint(1, 8))]
+        return base
+
     def gen_raw(self, prop, seed, idx, wire, rng):
         """Plan for C05 mode B: a driver thread feeds `wire` to a ParserQueue in chunks, 1-2 consumers;
         or (every third) several producers each feeding whole encodings, several per put_bytes call."""
@@ -302,6 +322,8 @@ class PortsConc(BaseEngine):
         elif kind in ('multi', 'multi_yield'):
             subs = [dev(k) for k in plan['sub_kinds'][:plan['n_sub']]]
             port = mports.MultiPort(subs, yield_ports=(kind == 'multi_yield'))
+        elif kind == 'twin_parsers':
+            port = None
         else:
             port = RtLikeInput('rt')
         return port, subs, wires
@@ -353,8 +375,46 @@ class PortsConc(BaseEngine):
                 log.ev('fed', pos)
             done['senders'] += 1
 
+        twin_out = {}
+
+        def twin_body(si):
+            from mido.parser import Parser
+            data = plan['wires'][si]
+            api = plan['twin_api'][si]
+            out = []
+            if api == 'parse_all':
+                for _ in range(2):
+                    inv, res = guarded(f'S{si}', 'parse_all', mido.parse_all, list(data))
+                    out.append([snap_msg(m) for m in res])
+            else:
+                prs = Parser()
+                pos = 0
+                ci = si
+                got = []
+                while pos < len(data):
+                    size = plan['chunks'][ci % len(plan['chunks'])]
+                    ci += 1
+                    piece = data[pos:pos + size]
+                    pos += len(piece)
+                    if api == 'feed_byte':
+                        for b in piece:
+                            guarded(f'S{si}', 'feed_byte', prs.feed_byte, b)
+                    else:
+                        guarded(f'S{si}', 'feed', prs.feed, piece)
+                    if ci % 2:
+                        inv, res = guarded(f'S{si}', 'drain', list, prs)
+                        got.extend(snap_msg(m) for m in res)
+                inv, res = guarded(f'S{si}', 'drain', list, prs)
+                got.extend(snap_msg(m) for m in res)
+                out.append(got)
+            twin_out[si] = out
+            record(f'S{si}', 'twin_done', sched.total_steps, len(out))
+            done['senders'] += 1
+
         def sender_body(si):
             def body():
+                if kind == 'twin_parsers':
+                    return twin_body(si)
                 if kind == 'pq_raw':
                     return raw_driver()
                 if kind == 'pq':
@@ -535,6 +595,14 @@ class PortsConc(BaseEngine):
             return 'continue'
         sched.on_idle = on_idle
 
+        twin_ref = {}
+        if kind == 'twin_parsers':
+            from mido.parser import Parser
+            for si, w in enumerate(plan['wires']):
+                try:
+                    twin_ref[si] = [snap_msg(m) for m in Parser(list(w))]
+                except Exception:
+                    twin_ref[si] = None
         for si in range(n_send):
             sched.spawn(f'S{si}', sender_body(si))
         for ri in range(len(plan['receivers'])):
@@ -574,6 +642,21 @@ class PortsConc(BaseEngine):
                             f'{progress["starved"][0]} stayed inside a blocking receive for 25 idle rounds of the '
                             f'simulated clock while {progress["starved"][1]} item(s) were deliverable on its port')
 
+        if kind == 'twin_parsers':
+            if sched.abort_reason not in ('stepcap',):
+                for si, outs in sorted(twin_out.items()):
+                    ref = twin_ref.get(si)
+                    if ref is None:
+                        continue
+                    for o in outs:
+                        if o != ref:
+                            raise Violation('threads:parsers-not-independent',
+                                            f'thread {si} ({plan["twin_api"][si]}) parsing {bytes(plan["wires"][si]).hex(" ")} '
+                                            f'got {o!r} while another thread was parsing its own data; alone it gives '
+                                            f'{ref!r}')
+            cov.add('twin_parsers|' + '+'.join(plan['twin_api']))
+            stats['probe:twin_parser_threads'] += 1
+            return
         # ---- final drain by the controlling thread (scheduler no longer active)
         mports.time = simsync.TimeShim(sched)
         drained = []
